@@ -72,6 +72,14 @@ func bitTest(cond ssa.Value) (top ssa.Value, bit int64, bitVar ssa.Value, ok boo
 	}
 	m, isM := constInt(and.Y)
 	if !isM {
+		// form (c): top & (1 << i), either operand order
+		for _, pr := range [][2]ssa.Value{{and.X, and.Y}, {and.Y, and.X}} {
+			if shl, isS := pr[1].(*ssa.BinOp); isS && shl.Op == token.SHL {
+				if one, isOne := constInt(shl.X); isOne && one == 1 && (bo.Op == token.GTR || bo.Op == token.NEQ) && k == 0 {
+					return pr[0], -1, stripIntConv(shl.Y), true
+				}
+			}
+		}
 		return
 	}
 	nonZero := (bo.Op == token.GTR && k == 0) || (bo.Op == token.NEQ && k == 0) || (bo.Op == token.EQL && k == m && m > 0 && m&(m-1) == 0)
@@ -226,9 +234,6 @@ func recogniseLFSR(p *Program, fn *ssa.Function) *lfsrShape {
 		if !ok || ph == st {
 			break
 		}
-		if len(ph.Edges) != 2 {
-			break
-		}
 		// inner counted loop (table form)
 		if isLoopHeader(ph.Block()) {
 			base, ok := lfsrInnerLoop(p, sh, ph, &top)
@@ -237,6 +242,9 @@ func recogniseLFSR(p *Program, fn *ssa.Function) *lfsrShape {
 			}
 			cur = base
 			continue
+		}
+		if len(ph.Edges) != 2 {
+			break
 		}
 		v, ok := condXor(ph.Edges[0], ph.Edges[1], ph.Block().Preds[0], ph.Block().Preds[1])
 		if !ok {
@@ -293,120 +301,157 @@ func recogniseLFSR(p *Program, fn *ssa.Function) *lfsrShape {
 	return sh
 }
 
-// lfsrInnerLoop handles `for i := 0; i < n; i++ { if (top>>i)&1 == 1 { c ^= table[i] } }`.
+// lfsrInnerLoop handles the table-driven forms of the feedback step:
+//
+//	for i := 0; i < n; i++ { if <bit i of top> { c ^= table[i] } }
+//	for i, g := range table { if <bit i of top> { c ^= g } }
+//
+// with the bit test written (top>>i)&1 ≠ 0 or top&(1<<i) ≠ 0, the table a never-reassigned
+// package-level array / slice of constants or a function-local array literal of constants, and the
+// not-taken edge either merging first or going straight back to the loop header.
 func lfsrInnerLoop(p *Program, sh *lfsrShape, ph *ssa.Phi, top *ssa.Value) (ssa.Value, bool) {
 	hdr := ph.Block()
-	var base, latch ssa.Value
+	var base ssa.Value
+	var latches []ssa.Value
 	for i, e := range ph.Edges {
 		if hdr.Dominates(hdr.Preds[i]) {
-			latch = e
+			latches = append(latches, e)
 		} else {
+			if base != nil {
+				sh.why = "inner loop state has more than one entry value"
+				return nil, false
+			}
 			base = e
 		}
 	}
-	if base == nil || latch == nil {
+	if base == nil || len(latches) == 0 {
 		sh.why = "inner loop state has no entry / back edge"
 		return nil, false
 	}
-	// induction variable with constant bound
-	var ind *ssa.Phi
+	// induction: iv runs 0 .. bound-1
+	var iv ssa.Value
 	var bound int64 = -1
-	for _, in := range hdr.Instrs {
-		q, ok := in.(*ssa.Phi)
-		if !ok || q == ph {
-			continue
-		}
-		if iff, ok := lastInstr(hdr).(*ssa.If); ok {
-			if c, ok := iff.Cond.(*ssa.BinOp); ok && c.Op == token.LSS && c.X == ssa.Value(q) {
-				if k, ok := constInt(c.Y); ok {
-					// init 0, step 1
-					okInd := false
+	if iff, ok := lastInstr(hdr).(*ssa.If); ok {
+		if c, ok := iff.Cond.(*ssa.BinOp); ok && c.Op == token.LSS {
+			if k, ok := constInt(c.Y); ok {
+				indOK := func(q *ssa.Phi, init int64, step ssa.Value) bool {
+					if q.Block() != hdr {
+						return false
+					}
+					okInit := false
 					for i, e := range q.Edges {
 						if !hdr.Dominates(hdr.Preds[i]) {
-							if k0, ok := constInt(e); ok && k0 == 0 {
-								okInd = true
+							if k0, ok := constInt(e); ok && k0 == init {
+								okInit = true
 							}
-						}
-					}
-					for i, e := range q.Edges {
-						if hdr.Dominates(hdr.Preds[i]) {
+						} else if step != nil {
+							if e != step {
+								return false
+							}
+						} else {
 							bo, ok := e.(*ssa.BinOp)
 							if !ok || bo.Op != token.ADD || bo.X != ssa.Value(q) {
-								okInd = false
-							} else if k1, ok := constInt(bo.Y); !ok || k1 != 1 {
-								okInd = false
+								return false
+							}
+							if k1, ok := constInt(bo.Y); !ok || k1 != 1 {
+								return false
 							}
 						}
 					}
-					if okInd {
-						ind, bound = q, k
+					return okInit
+				}
+				if q, ok := c.X.(*ssa.Phi); ok && indOK(q, 0, nil) {
+					iv, bound = q, k
+				} else if inc, ok := c.X.(*ssa.BinOp); ok && inc.Op == token.ADD {
+					if q, ok := inc.X.(*ssa.Phi); ok {
+						if k1, ok := constInt(inc.Y); ok && k1 == 1 && indOK(q, -1, inc) {
+							iv, bound = inc, k
+						}
 					}
 				}
 			}
 		}
 	}
-	if ind == nil {
-		sh.why = "inner loop is not a counted loop from 0 with a constant bound"
+	if iv == nil {
+		sh.why = "inner loop is not a counted / range loop from 0 with a constant bound"
 		return nil, false
 	}
-	m, ok := latch.(*ssa.Phi)
-	if !ok || len(m.Edges) != 2 {
-		sh.why = "inner loop body is not a conditional xor"
-		return nil, false
-	}
+	// back-edge values: the state unchanged, a merge of (state, state ^ table[iv]), or state ^ table[iv] directly
 	var xr *ssa.BinOp
-	var condBlk *ssa.BasicBlock
-	for i, e := range m.Edges {
-		if x, ok := e.(*ssa.BinOp); ok && x.Op == token.XOR && x.X == ssa.Value(ph) {
-			xr = x
-			tb := m.Block().Preds[i]
-			if len(tb.Preds) == 1 {
-				condBlk = tb.Preds[0]
+	var xorBlock *ssa.BasicBlock
+	for _, l := range latches {
+		cands := []ssa.Value{l}
+		var candBlocks []*ssa.BasicBlock
+		if m, ok := l.(*ssa.Phi); ok && m != ph {
+			cands = nil
+			for i, e := range m.Edges {
+				cands = append(cands, e)
+				candBlocks = append(candBlocks, m.Block().Preds[i])
 			}
-		} else if e != ssa.Value(ph) {
-			sh.why = "inner loop merge carries something other than the state"
-			return nil, false
+		}
+		for i, e := range cands {
+			if e == ssa.Value(ph) {
+				continue
+			}
+			x, ok := e.(*ssa.BinOp)
+			if !ok || x.Op != token.XOR || (x.X != ssa.Value(ph) && x.Y != ssa.Value(ph)) {
+				sh.why = "inner loop carries something other than the state or state ^ table[i]"
+				return nil, false
+			}
+			if xr != nil && xr != x {
+				sh.why = "inner loop has more than one xor"
+				return nil, false
+			}
+			xr = x
+			if candBlocks != nil {
+				xorBlock = candBlocks[i]
+			} else {
+				xorBlock = x.Block()
+			}
 		}
 	}
-	if xr == nil || condBlk == nil {
+	if xr == nil || xorBlock == nil || len(xorBlock.Preds) != 1 {
 		sh.why = "inner loop has no conditional xor"
 		return nil, false
 	}
+	condBlk := xorBlock.Preds[0]
 	iff, ok := lastInstr(condBlk).(*ssa.If)
-	if !ok {
-		sh.why = "inner xor is not conditional"
+	if !ok || condBlk.Succs[0] != xorBlock {
+		sh.why = "inner xor is not taken on the passing edge of a bit test"
 		return nil, false
 	}
 	t, _, bv, ok := bitTest(iff.Cond)
-	if !ok || bv != ssa.Value(ind) {
+	if !ok || bv == nil || stripIntConv(bv) != stripIntConv(iv) {
 		sh.why = "inner condition does not test bit i of the feedback value"
 		return nil, false
 	}
 	*top = t
-	// xored value: table[i]
-	ld, ok := xr.Y.(*ssa.UnOp)
-	if !ok || ld.Op != token.MUL {
+	// xored value: table[iv]
+	tv := xr.Y
+	if xr.Y == ssa.Value(ph) {
+		tv = xr.X
+	}
+	var tableVal ssa.Value
+	switch e := tv.(type) {
+	case *ssa.UnOp:
+		ia, ok := e.X.(*ssa.IndexAddr)
+		if e.Op != token.MUL || !ok || stripIntConv(ia.Index) != stripIntConv(iv) {
+			sh.why = "inner xor operand is not the table element at the bit number"
+			return nil, false
+		}
+		tableVal = ia.X
+	case *ssa.Index:
+		if stripIntConv(e.Index) != stripIntConv(iv) {
+			sh.why = "table is not indexed by the bit number"
+			return nil, false
+		}
+		tableVal = e.X
+	default:
 		sh.why = "inner xor operand is not a table load"
 		return nil, false
 	}
-	ia, ok := ld.X.(*ssa.IndexAddr)
-	if !ok || ia.Index != ssa.Value(ind) {
-		sh.why = "table is not indexed by the bit number"
-		return nil, false
-	}
-	var g *ssa.Global
-	switch tx := ia.X.(type) {
-	case *ssa.Global:
-		g = tx
-	case *ssa.UnOp:
-		g, _ = tx.X.(*ssa.Global)
-	}
-	if g == nil {
-		sh.why = "generator table is not a package-level variable"
-		return nil, false
-	}
-	vals, ok := p.constIntTable(g)
-	if !ok || !p.assignedOnlyByInit(g) {
+	vals, ok := constTableOf(p, tableVal)
+	if !ok {
 		sh.why = "generator table is not a constant, never-reassigned table"
 		return nil, false
 	}
@@ -418,6 +463,61 @@ func lfsrInnerLoop(p *Program, sh *lfsrShape, ph *ssa.Phi, top *ssa.Value) (ssa.
 		sh.taps[int(i)] = uint64(vals[i])
 	}
 	return base, true
+}
+
+// constTableOf: v denotes a table of constants: a package-level variable (or a load of it) assigned only by
+// its initialiser, or (a load of) a function-local array filled only by constant element stores.
+func constTableOf(p *Program, v ssa.Value) ([]int64, bool) {
+	if ld, ok := v.(*ssa.UnOp); ok && ld.Op == token.MUL {
+		v = ld.X
+	}
+	switch x := v.(type) {
+	case *ssa.Global:
+		vals, ok := p.constIntTable(x)
+		if !ok || !p.assignedOnlyByInit(x) {
+			return nil, false
+		}
+		return vals, true
+	case *ssa.Alloc:
+		at, ok := derefType(x.Type()).Underlying().(*types.Array)
+		if !ok {
+			return nil, false
+		}
+		vals := make([]int64, at.Len())
+		set := make([]bool, at.Len())
+		for _, ref := range *x.Referrers() {
+			switch r := ref.(type) {
+			case *ssa.IndexAddr:
+				k, isK := constInt(r.Index)
+				if !isK || k < 0 || k >= at.Len() {
+					return nil, false
+				}
+				for _, u := range *r.Referrers() {
+					st, ok := u.(*ssa.Store)
+					if !ok || st.Addr != ssa.Value(r) {
+						return nil, false
+					}
+					c, isC := st.Val.(*ssa.Const)
+					if !isC || c.Value == nil || set[k] {
+						return nil, false
+					}
+					if u64, ok := constUint(c); ok {
+						vals[k] = int64(u64)
+					} else if i64, ok := constInt(c); ok {
+						vals[k] = i64
+					} else {
+						return nil, false
+					}
+					set[k] = true
+				}
+			case *ssa.UnOp, *ssa.DebugRef:
+			default:
+				return nil, false
+			}
+		}
+		return vals, true
+	}
+	return nil, false
 }
 
 func checkC03(p *Program, r *Report) {
@@ -499,8 +599,8 @@ func checkC03(p *Program, r *Report) {
 		c03argument(p, r, tg.name, g, R)
 	}
 	c03inject(p, r)
-	r.Floor("C03.lfsr", 22)
-	r.Floor("C03.accept", 6)
+	r.Floor("C03.lfsr", 10)
+	r.Floor("C03.accept", 4)
 	r.Floor("C03.inject", 3)
 }
 
